@@ -547,3 +547,31 @@ MUTANTS += [
          old="                    val = as_encoded_array(pre_val, field.type)\n                    if isinstance(field.type, FlatAlphabetEncoding):\n                        val = val.ravel()",
          new="                    try:\n                        val = as_encoded_array(pre_val, field.type)\n                    except Exception:\n                        val = as_encoded_array('.' * len(pre_val), field.type) if isinstance(field.type, FlatAlphabetEncoding) else as_encoded_array(pre_val, field.type)\n                    if isinstance(field.type, FlatAlphabetEncoding):\n                        val = val.ravel()"),
 ]
+
+VE = "bionumpy/encodings/vcf_encoding.py"
+
+MUTANTS += [
+    # ---- C20 ----------------------------------------------------------------------------
+    dict(prop="C20", name="str-to-int-no-copy", file=SO,
+         old="    number_text = as_encoded_array(number_text).copy()", new="    number_text = as_encoded_array(number_text)"),
+    dict(prop="C20", name="str-to-float-skips-index-copy", file=SO,
+         old="        numbers[~scientific] = _decimal_str_to_float(number_text[~scientific])", new="        numbers[~scientific] = _decimal_str_to_float(number_text if not np.any(scientific) else number_text[~scientific])"),
+    dict(prop="C20", name="merge-stops-in-place (seeded C08-a)", file=IV,
+         old="    stops = np.maximum.accumulate(intervals.stop)\n", new="    stops = intervals.stop\n    if np.any(stops[1:] < stops[:-1]):\n        stops = np.maximum.accumulate(stops)\n"),
+    dict(prop="C20", name="field-lengths-in-place (seeded C20-a)", file=FB,
+         old="        if keep_sep:\n            lens = lens + 1", new="        if keep_sep:\n            lens += 1"),
+    dict(prop="C20", name="list-column-separator-written-into-buffer", file=DLB,
+         old="            try:\n                text[:, -1] = sep\n            except ValueError:\n                text = text.copy()\n                text[:, -1] = sep",
+         new="            text.ravel()\n            text[:, -1] = sep"),
+    dict(prop="C20", name="make-contiguous-in-place (seeded C04-a)", file=FB,
+         old="        self._field_starts = self._field_starts - offsets[:, None]", new="        self._field_starts -= offsets[:, None]"),
+    dict(prop="C20", name="clip-in-place", file=IV,
+         old="        start=np.maximum(0, intervals.start),\n        stop=np.minimum(chrom_sizes, intervals.stop))",
+         new="        start=np.maximum(0, intervals.start),\n        stop=np.minimum(chrom_sizes, intervals.stop, out=intervals.stop))"),
+    dict(prop="C20", name="sort-by-in-place", file=BDC,
+         old="        return self[np.argsort(getattr(self, field_name))]", new="        getattr(self, field_name).sort()\n        return self"),
+    dict(prop="C20", name="complement-lookup-mutated", file=DNA,
+         old="    new_data = lookup[array]\n", new="    new_data = lookup[array]\n    if array.size > 6 and not isinstance(_array, EncodedRaggedArray):\n        array.data[:] = new_data.raw()\n"),
+    dict(prop="C20", name="pileup-extends-input-stops", file=IV,
+         old="    rla = RunLength2dArray.from_intervals(intervals.start, intervals.stop, chromosome_size)", new="    np.minimum(intervals.stop, chromosome_size - 1, out=intervals.stop)\n    rla = RunLength2dArray.from_intervals(intervals.start, intervals.stop, chromosome_size)"),
+]
